@@ -8,6 +8,7 @@ import (
 	"sort"
 	"strings"
 	"testing"
+	"time"
 
 	"go.minekube.com/gate/pkg/edition/java/proto/state/states"
 	"go.minekube.com/gate/pkg/edition/java/proto/version"
@@ -162,12 +163,29 @@ func (h *H) runCase(g *pktgen.Gen, cs pktgen.Case) {
 				off, len(enc1), len(enc2), hx(enc1), hx(enc2)))
 		}
 	}
+	// onWire re-encodes the whole packet a few times; in the element-count cases (127/128 elements, alternately the
+	// rich and the alt element) the elements of equal parity are identical values at identically encoded positions, so
+	// the answer is computed once per (field, index parities) instead of once per element
+	wireMemo := map[string]bool{}
 	for _, d := range pktgen.DiffPackets(tn, x, y) {
 		if na[d.Path.Norm()] {
 			r.Class("field-not-applicable-in-this-mode")
 			continue
 		}
-		if !h.onWire(g, cs, x, enc1, d.Path) {
+		mk := d.Path.Norm()
+		for _, st := range d.Path {
+			if st.Index >= 2 {
+				mk += fmt.Sprintf("|%d", st.Index%2)
+			} else {
+				mk += fmt.Sprintf("|%d", st.Index)
+			}
+		}
+		ow, seen := wireMemo[mk]
+		if !seen {
+			ow = h.onWire(g, cs, x, enc1, d.Path)
+			wireMemo[mk] = ow
+		}
+		if !ow {
 			r.Class("field-not-on-wire-in-this-version")
 			continue
 		}
@@ -241,6 +259,7 @@ func TestVerif(t *testing.T) {
 		}
 		cells := pktgen.Cells()
 		types := map[string]bool{}
+		slowNoted := 0
 		for i, c := range cells {
 			if !r.Mine(i) {
 				continue
@@ -267,7 +286,12 @@ func TestVerif(t *testing.T) {
 					lbl = strings.TrimSuffix(strings.TrimPrefix(lbl, "{"), "}")
 					r.Class("val:" + classOfLabel(lbl))
 				}
+				t0 := time.Now()
 				h.runCase(g, cs)
+				if d := time.Since(t0); d > 3*time.Second && slowNoted < 5 {
+					slowNoted++
+					r.Note(fmt.Sprintf("slow case (%.1fs): %s %s", d.Seconds(), c.String(), g.Label(cs.Spec)))
+				}
 				if n == 3 {
 					r.Sample(map[string]string{"cell": c.String(), "case": g.Label(cs.Spec)})
 				}
